@@ -74,49 +74,49 @@ fn lemma_b(lo: u32, hi: u32) {
     kani::cover!(rep(c) != c, "non-trivial class");
 }
 
-// @verif props=C10,C15 tier=quick timeout=1500 mem=16 unwind=14 c15=index,safe,index_safe,alloc bound="all c in 0..=0x7FF" funcs="unicode::fold,FoldRange::apply,FOLDS"
+// @verif props=C10,C15 tier=quick timeout=1500 mem=12 unwind=14 c15=index,safe,index_safe,alloc bound="all c in 0..=0x7FF" funcs="unicode::fold,FoldRange::apply,FOLDS"
 #[kani::proof]
 #[kani::unwind(14)]
 fn c10_fold_lemma_a_r0() {
     lemma_a(0, 0x7FF);
 }
-// @verif props=C10,C15 tier=quick timeout=1500 mem=16 unwind=14 c15=index,safe,index_safe,alloc bound="all c in 0x800..=0x2FFF" funcs="unicode::fold,FoldRange::apply,FOLDS"
+// @verif props=C10,C15 tier=quick timeout=1500 mem=12 unwind=14 c15=index,safe,index_safe,alloc bound="all c in 0x800..=0x2FFF" funcs="unicode::fold,FoldRange::apply,FOLDS"
 #[kani::proof]
 #[kani::unwind(14)]
 fn c10_fold_lemma_a_r1() {
     lemma_a(0x800, 0x2FFF);
 }
-// @verif props=C10,C15 tier=quick timeout=1500 mem=16 unwind=14 c15=index,safe,index_safe,alloc bound="all c in 0x3000..=0xFFFF" funcs="unicode::fold,FoldRange::apply,FOLDS"
+// @verif props=C10,C15 tier=quick timeout=1500 mem=12 unwind=14 c15=index,safe,index_safe,alloc bound="all c in 0x3000..=0xFFFF" funcs="unicode::fold,FoldRange::apply,FOLDS"
 #[kani::proof]
 #[kani::unwind(14)]
 fn c10_fold_lemma_a_r2() {
     lemma_a(0x3000, 0xFFFF);
 }
-// @verif props=C10,C15 tier=quick timeout=1500 mem=16 unwind=14 c15=index,safe,index_safe,alloc bound="all c in 0x10000..=0x10FFFF" funcs="unicode::fold,FoldRange::apply,FOLDS"
+// @verif props=C10,C15 tier=quick timeout=1500 mem=12 unwind=14 c15=index,safe,index_safe,alloc bound="all c in 0x10000..=0x10FFFF" funcs="unicode::fold,FoldRange::apply,FOLDS"
 #[kani::proof]
 #[kani::unwind(14)]
 fn c10_fold_lemma_a_r3() {
     lemma_a(0x10000, 0x10FFFF);
 }
-// @verif props=C10,C15 tier=quick timeout=1500 mem=16 unwind=14 c15=index,safe,index_safe,alloc bound="all c in 0..=0x7FF" funcs="unicode::fold,FoldRange::apply,FOLDS"
+// @verif props=C10,C15 tier=quick timeout=1500 mem=12 unwind=14 c15=index,safe,index_safe,alloc bound="all c in 0..=0x7FF" funcs="unicode::fold,FoldRange::apply,FOLDS"
 #[kani::proof]
 #[kani::unwind(14)]
 fn c10_fold_lemma_b_r0() {
     lemma_b(0, 0x7FF);
 }
-// @verif props=C10,C15 tier=quick timeout=1500 mem=16 unwind=14 c15=index,safe,index_safe,alloc bound="all c in 0x800..=0x2FFF" funcs="unicode::fold,FoldRange::apply,FOLDS"
+// @verif props=C10,C15 tier=thorough timeout=1500 mem=12 unwind=14 c15=index,safe,index_safe,alloc bound="all c in 0x800..=0x2FFF" funcs="unicode::fold,FoldRange::apply,FOLDS"
 #[kani::proof]
 #[kani::unwind(14)]
 fn c10_fold_lemma_b_r1() {
     lemma_b(0x800, 0x2FFF);
 }
-// @verif props=C10,C15 tier=quick timeout=1500 mem=16 unwind=14 c15=index,safe,index_safe,alloc bound="all c in 0x3000..=0xFFFF" funcs="unicode::fold,FoldRange::apply,FOLDS"
+// @verif props=C10,C15 tier=quick timeout=1500 mem=12 unwind=14 c15=index,safe,index_safe,alloc bound="all c in 0x3000..=0xFFFF" funcs="unicode::fold,FoldRange::apply,FOLDS"
 #[kani::proof]
 #[kani::unwind(14)]
 fn c10_fold_lemma_b_r2() {
     lemma_b(0x3000, 0xFFFF);
 }
-// @verif props=C10,C15 tier=quick timeout=1500 mem=16 unwind=14 c15=index,safe,index_safe,alloc bound="all c in 0x10000..=0x10FFFF" funcs="unicode::fold,FoldRange::apply,FOLDS"
+// @verif props=C10,C15 tier=thorough timeout=1500 mem=12 unwind=14 c15=index,safe,index_safe,alloc bound="all c in 0x10000..=0x10FFFF" funcs="unicode::fold,FoldRange::apply,FOLDS"
 #[kani::proof]
 #[kani::unwind(14)]
 fn c10_fold_lemma_b_r3() {
@@ -138,13 +138,13 @@ fn legacy_body(lo: u32, hi: u32) {
     kani::cover!(u != c, "a code point with an upper-case form");
 }
 
-// @verif props=C10,C15 tier=quick timeout=1500 mem=16 unwind=14 c15=index,safe,index_safe,alloc bound="all c in 0..=0x2FFF" funcs="unicode::uppercase,unicode::fold_code_point,FoldRange::apply,TO_UPPERCASE"
+// @verif props=C10,C15 tier=quick timeout=1500 mem=12 unwind=14 c15=index,safe,index_safe,alloc bound="all c in 0..=0x2FFF" funcs="unicode::uppercase,unicode::fold_code_point,FoldRange::apply,TO_UPPERCASE"
 #[kani::proof]
 #[kani::unwind(14)]
 fn c10_legacy_upper_r0() {
     legacy_body(0, 0x2FFF);
 }
-// @verif props=C10,C15 tier=quick timeout=1500 mem=16 unwind=14 c15=index,safe,index_safe,alloc bound="all c in 0x3000..=0x10FFFF" funcs="unicode::uppercase,unicode::fold_code_point,FoldRange::apply,TO_UPPERCASE"
+// @verif props=C10,C15 tier=quick timeout=1500 mem=12 unwind=14 c15=index,safe,index_safe,alloc bound="all c in 0x3000..=0x10FFFF" funcs="unicode::uppercase,unicode::fold_code_point,FoldRange::apply,TO_UPPERCASE"
 #[kani::proof]
 #[kani::unwind(14)]
 fn c10_legacy_upper_r1() {
